@@ -11,7 +11,7 @@ package main
 //
 // Replayable op lines (replay text of a failure, not part of the Lean transcript):
 //   phnew <sheet|workbook>
-//   phprot <hex alg> <hex password> <flag bits as 0/1 string>
+//   phprot <hex alg> <hex password> <Option:0|1,...>   (transcript op: result = stored record)
 //   phunprot <hex password | ~>          (~ = no password argument)
 //   phswap                               save + reopen, continue on the reopened file
 //   phverify                             final verification (copy and live)
@@ -19,6 +19,7 @@ package main
 import (
 	"fmt"
 	"reflect"
+	"sort"
 	"strings"
 
 	xl "github.com/xuri/excelize/v2"
@@ -67,6 +68,31 @@ func (h *c18ProtHist) dump(g *xl.File) map[string]string {
 		}
 	}
 	return m
+}
+
+// canon renders the stored record as the Lean driver does: algorithm and legacy password
+// (hex), presence of hash and salt, spin count, flags sorted by name.
+func (h *c18ProtHist) canon(g *xl.File) string {
+	d := h.dump(g)
+	if d["_raw"] == "none" || d["_raw"] == "ERR" {
+		return d["_raw"]
+	}
+	b := func(v string) string {
+		if v == "0" {
+			return "0"
+		}
+		return "1"
+	}
+	var fl []string
+	for k, v := range d {
+		switch k {
+		case "_raw", "alg", "pw", "hash", "salt", "spin":
+		default:
+			fl = append(fl, k+"="+v)
+		}
+	}
+	sort.Strings(fl)
+	return "alg=" + hx(d["alg"]) + " pw=" + hx(d["pw"]) + " hash=" + b(d["hash"]) + " salt=" + b(d["salt"]) + " spin=" + d["spin"] + " " + strings.Join(fl, " ")
 }
 
 func (h *c18ProtHist) unprotect(g *xl.File, p ...string) error {
@@ -163,6 +189,7 @@ func (h *c18ProtHist) exec(r *Run, line string) bool {
 			h.f.Close()
 		}
 		*h = c18ProtHist{f: xl.NewFile(), workbook: len(w) > 1 && w[1] == "workbook", lines: []string{line}}
+		r.Op("phnew "+h.kind(), "ok")
 		return true
 	}
 	if h.f == nil {
@@ -178,19 +205,26 @@ func (h *c18ProtHist) exec(r *Run, line string) bool {
 		if len(w) < 4 {
 			return true
 		}
-		alg, pw, bits := unhx(w[1]), unhx(w[2]), w[3]
-		bit := func(i int) bool { return i < len(bits) && bits[i] == '1' }
+		alg, pw := unhx(w[1]), unhx(w[2])
+		given := map[string]bool{}
+		if w[3] != "-" {
+			for _, t := range strings.Split(w[3], ",") {
+				if i := strings.Index(t, ":"); i > 0 {
+					given[t[:i]] = t[i+1:] == "1"
+				}
+			}
+		}
 		flags := map[string]bool{}
 		var err error
 		if h.workbook {
-			o := &xl.WorkbookProtectionOptions{AlgorithmName: alg, Password: pw, LockStructure: bit(0), LockWindows: bit(1)}
-			flags["LockStructure"], flags["LockWindows"] = bit(0), bit(1)
+			o := &xl.WorkbookProtectionOptions{AlgorithmName: alg, Password: pw, LockStructure: given["LockStructure"], LockWindows: given["LockWindows"]}
+			flags["LockStructure"], flags["LockWindows"] = given["LockStructure"], given["LockWindows"]
 			err = h.f.ProtectWorkbook(o)
 		} else {
 			o := &xl.SheetProtectionOptions{AlgorithmName: alg, Password: pw}
 			ov := reflect.ValueOf(o).Elem()
-			for i, n := range c18SheetFlagOpts {
-				ov.FieldByName(n).SetBool(bit(i))
+			for _, n := range c18SheetFlagOpts {
+				ov.FieldByName(n).SetBool(given[n])
 				stored := n
 				switch n {
 				case "EditObjects":
@@ -198,19 +232,22 @@ func (h *c18ProtHist) exec(r *Run, line string) bool {
 				case "EditScenarios":
 					stored = "Scenarios"
 				}
-				flags[stored] = !bit(i)
+				flags[stored] = !given[n]
 			}
 			flags["Sheet"] = true
 			err = h.f.ProtectSheet(c18Sheet, o)
 		}
 		if err != nil {
 			r.Stat("protecth:" + h.kind() + ":rejected")
-			// a rejected call must leave the previous protection in force... the current code
-			// has already replaced the record; only the accepted calls are part of the property
+			// a rejected call (unsupported algorithm, password too long) has already replaced the
+			// record by the flags-only one: that is what the model says too (transcript); the
+			// property speaks about accepted calls only, so the oracle stops here
+			r.Op(line, "ERR "+h.canon(h.f))
 			h.dead = true
 			return true
 		}
 		h.on, h.alg, h.pw, h.flags = true, alg, pw, flags
+		r.Op(line, "ok "+h.canon(h.f))
 	case "phunprot":
 		var err error
 		if len(w) < 2 || w[1] == "~" {
@@ -220,6 +257,9 @@ func (h *c18ProtHist) exec(r *Run, line string) bool {
 		}
 		if err == nil {
 			h.on = false
+			r.Op(line, "ok "+h.canon(h.f))
+		} else {
+			r.Op(line, "refused "+h.canon(h.f))
 		}
 	case "phswap":
 		g, err := c18Reopen(h.f)
@@ -229,6 +269,7 @@ func (h *c18ProtHist) exec(r *Run, line string) bool {
 		}
 		h.f.Close()
 		h.f = g
+		r.Op(line, h.canon(h.f))
 	case "phverify":
 		g, err := c18Reopen(h.f)
 		if err != nil {
@@ -270,21 +311,22 @@ func c18ProtHistory(r *Run, workbook bool, script []string) {
 	h.f.Close()
 }
 
-func c18ProtBits(rng *Rng, n int) string {
-	b := make([]byte, n)
-	for i := range b {
-		b[i] = byte('0' + rng.Intn(2))
+func c18ProtBits(rng *Rng, workbook bool) string {
+	names := c18SheetFlagOpts
+	if workbook {
+		names = []string{"LockStructure", "LockWindows"}
 	}
-	return string(b)
+	var p []string
+	for _, n := range names {
+		p = append(p, fmt.Sprintf("%s:%d", n, rng.Intn(2)))
+	}
+	return strings.Join(p, ",")
 }
 
 func c18ProtHistories(r *Run, rng *Rng, thorough bool) {
 	for _, wb := range []bool{false, true} {
-		n := len(c18SheetFlagOpts)
-		if wb {
-			n = 2
-		}
-		b := func() string { return c18ProtBits(rng, n) }
+		wbk := wb
+		b := func() string { return c18ProtBits(rng, wbk) }
 		// deterministic: password -> none, none -> password, algorithm change, legacy -> ISO, protect -> unprotect -> protect
 		c18ProtHistory(r, wb, []string{c18ProtLine("SHA-256", "first", b()), c18ProtLine("", "", b())})
 		c18ProtHistory(r, wb, []string{c18ProtLine("", "", b()), c18ProtLine("MD5", "second", b())})
@@ -292,6 +334,8 @@ func c18ProtHistories(r *Run, rng *Rng, thorough bool) {
 		c18ProtHistory(r, wb, []string{c18ProtLine("", "legacy", b()), c18ProtLine("SHA-1", "iso", b()), c18ProtLine("", "legacy2", b())})
 		c18ProtHistory(r, wb, []string{c18ProtLine("MD4", "p1", b()), "phunprot " + hx("p1"), c18ProtLine("", "", b()), "phswap"})
 		c18ProtHistory(r, wb, []string{c18ProtLine("", "", b()), "phunprot ~", c18ProtLine("MD5", "again", b())})
+		c18ProtHistory(r, wb, []string{c18ProtLine("MD5", "keep", b()), "phunprot " + hx("wrong"), "phunprot " + hx(""), c18ProtLine("bogus", "x", b())})
+		c18ProtHistory(r, wb, []string{c18ProtLine("", "legacy", b()), "phunprot " + hx("Legacy"), "phunprot " + hx("legacy")})
 		nr := 2
 		if thorough {
 			nr = 40
